@@ -175,6 +175,13 @@ pub fn drive_case(rng: &mut StdRng, id: usize, c: &Case, w: &Want) -> J {
                 let _ = run_on(&mut e, &prog_text(&other.clauses));
             }
         }
+        // the same program with every integer constant shifted, first: state keyed by
+        // relation / adornment but not by the constant (magic seeds, shared views)
+        // would leak into the run that follows
+        let shifted: Vec<Clause> = c.clauses.iter().map(shift_consts).collect();
+        if shifted != c.clauses {
+            let _ = run_on(&mut e, &prog_text(&shifted));
+        }
         // a bound query on a recursive relation exercises magic sets seeds
         let (res, _) = run_on(&mut e, &text);
         push("reuse", &d, json!([]), res, base_json(&e, &c.edb));
@@ -318,6 +325,36 @@ fn clause_from_json(j: &J) -> Clause {
                 "cmp" => Lit::Cmp(l["op"].as_str().unwrap().into(), expr_from_json(&l["l"]), expr_from_json(&l["r"])),
                 "asg" => Lit::Asg(l["v"].as_str().unwrap().into(), expr_from_json(&l["e"])),
                 k => panic!("lit {k}"),
+            })
+            .collect(),
+    }
+}
+
+/// Every integer constant c of a clause replaced by c + 1 (same shape, other constants).
+pub fn shift_consts(c: &Clause) -> Clause {
+    fn t(x: &Term) -> Term {
+        match x {
+            Term::Const(V::I(n)) => Term::Const(V::I(n + 1)),
+            o => o.clone(),
+        }
+    }
+    fn e(x: &Expr) -> Expr {
+        match x {
+            Expr::T(y) => Expr::T(t(y)),
+            Expr::Bin(op, l, r) => Expr::Bin(op.clone(), Box::new(e(l)), Box::new(e(r))),
+        }
+    }
+    Clause {
+        hr: c.hr.clone(),
+        ha: c.ha.iter().map(t).collect(),
+        body: c
+            .body
+            .iter()
+            .map(|l| match l {
+                Lit::Pos(r, a) => Lit::Pos(r.clone(), a.iter().map(t).collect()),
+                Lit::Neg(r, a) => Lit::Neg(r.clone(), a.iter().map(t).collect()),
+                Lit::Cmp(op, l, r) => Lit::Cmp(op.clone(), e(l), e(r)),
+                Lit::Asg(v, x) => Lit::Asg(v.clone(), e(x)),
             })
             .collect(),
     }
